@@ -177,11 +177,16 @@ class Emitter:
     def __init__(self):
         self.used = set()
 
+    CHUNK = 4000          # very long list literals overflow coqc's stack: emit them as a concatenation of chunks
+
     def ints(self, xs):
         xs = list(xs)
         if not xs:
             return "(@nil N)"
         self.used.update(xs)
+        if len(xs) > self.CHUNK:
+            parts = [xs[i:i + self.CHUNK] for i in range(0, len(xs), self.CHUNK)]
+            return "(" + " ++ ".join("[" + ";".join(f"c{x}" for x in part) + "]" for part in parts) + ")"
         return "[" + ";".join(f"c{x}" for x in xs) + "]"
 
     def pstr(self, t):
@@ -309,7 +314,9 @@ def correspond(R, name, seqs, mode, shards=None):
         R.obligation_broken(f"correspondence {name}", "implementation runner failed: " + p.stderr.decode(errors="replace")[-2000:])
         return None, []
     results = json.loads(p.stdout)
-    shards = shards or min(C.NPROC, max(1, len(results) // 8))
+    # shards: at most 500 cases and about 600k list elements per generated file (coqc's cost is per element)
+    volume = sum(len(r["expected"]) for r in results)
+    shards = shards or max(min(C.NPROC, max(1, len(results) // 8)), (len(results) + 499) // 500, volume // 600000 + 1)
     size = (len(results) + shards - 1) // shards
     files, spans = [], []
     for i in range(0, len(results), size):
@@ -317,6 +324,8 @@ def correspond(R, name, seqs, mode, shards=None):
         f.write_text(cases_file(results[i:i + size], mode))
         files.append(f)
         spans.append(i)
+    R.notes["shards"] = R.notes.get("shards", 0) + len(files)
+    R.notes["observation_elements"] = R.notes.get("observation_elements", 0) + volume
     try:
         outs = C.coqc_many(files, R.gen, timeout=1500)
     finally:
@@ -379,6 +388,11 @@ def run_property(R, prop, weights, mode, maxlen, n_quick, n_thorough, probes=(),
         R.case(r["ops"], nontrivial=any(c in ("ok", "sel") for c in r["classes"]))
         for o, cls in zip(sq, r["classes"]):
             R.count(f"{o[0]}:{cls}")
+            if o[0] == "table":
+                for _, spec in o[3]:
+                    R.count("table-input:" + ("DataFrame" if spec.get("df") else "dict"))
+        if (U + 9) in r["expected"]:
+            R.count("sequences-with-a-raising-render/format")      # ragged table: PrettyTable refuses the columns
         lens[len(sq)] = lens.get(len(sq), 0) + 1
     R.notes["sequence_lengths"] = dict(sorted(lens.items()))
     R.notes["operations"] = sum(len(x) for x in seqs)
